@@ -142,6 +142,8 @@ type Exec struct {
 	TimeDevs   int // TIME deviations taken
 	Faulted    []string
 	Ended      bool
+	FreeRun    bool         // RunFree: real time, no explorer
+	Tracked    atomic.Int64 // calls the scenario expects to return (free-running mode waits for them)
 	tornDown   bool
 	ExecID     int64
 	Redundant  bool // a select-priority alternative turned out not to be ready
@@ -356,8 +358,8 @@ type Options struct {
 
 // Run performs one controlled execution of body (which runs in domain
 // "host") and returns it. Must be called from the bubble's root goroutine.
-func Run(opt Options, setup func(x *Exec), body func(x *Exec)) *Exec {
-	x := &Exec{
+func newExec(opt Options) *Exec {
+	return &Exec{
 		lids:       map[int64]int{},
 		domains:    map[unsafe.Pointer]*Domain{},
 		domByName:  map[string]*Domain{},
@@ -372,6 +374,54 @@ func Run(opt Options, setup func(x *Exec), body func(x *Exec)) *Exec {
 		closed:     map[any]struct{}{},
 		timerChans: map[uintptr]timerChan{},
 	}
+}
+
+// RunFree performs one FREE-RUNNING execution of body: no bubble, no explorer, real time,
+// real sockets (vnet falls back to package net), scheduling points are no-ops. It is the
+// conformance side of the environment model: the observations of the default schedule of a
+// scenario inside the bubble are compared with what the same driver observes here.
+func RunFree(opt Options, setup func(x *Exec), body func(x *Exec), wait time.Duration) *Exec {
+	x := newExec(opt)
+	x.FreeRun = true
+	x.free.Store(true)
+	x.t0 = time.Now()
+	x.ExecID = execCounter.Add(1)
+	if setup != nil {
+		setup(x)
+	}
+	done := make(chan struct{})
+	x.Go("host", func() {
+		defer close(done)
+		defer x.bodyDone.Store(true)
+		body(x)
+	})
+	deadline := time.Now().Add(wait)
+	select {
+	case <-done:
+	case <-time.After(wait):
+	}
+	// the body may only have started tracked calls: wait until they are done, then a short settle
+	for x.Tracked.Load() > 0 && time.Now().Before(deadline) {
+		time.Sleep(20 * time.Millisecond)
+	}
+	time.Sleep(300 * time.Millisecond)
+	if opt.AtEnd != nil {
+		x.Ended = true
+		opt.AtEnd(x)
+	}
+	x.mu.Lock()
+	cl := x.cleanups
+	x.cleanups = nil
+	x.tornDown = true
+	x.mu.Unlock()
+	for i := len(cl) - 1; i >= 0; i-- {
+		go cl[i]()
+	}
+	return x
+}
+
+func Run(opt Options, setup func(x *Exec), body func(x *Exec)) *Exec {
+	x := newExec(opt)
 	if x.Horizon == 0 {
 		x.Horizon = 120 * time.Second
 	}
@@ -793,6 +843,13 @@ func (x *Exec) Stuck() bool { return x.stuck }
 // for d of virtual time: used by end-of-execution checks after they closed
 // things, so that goroutines can unwind before leaks are counted.
 func (x *Exec) Quiesce(d time.Duration) {
+	if x.FreeRun {
+		if d > 5600*time.Millisecond {
+			d = 5600 * time.Millisecond // just past go-plugin's 5 s waits, in real time
+		}
+		time.Sleep(d)
+		return
+	}
 	end := time.Now().Add(d)
 	for n := 0; n < 100000; n++ {
 		synctest.Wait()
